@@ -555,7 +555,7 @@ func genStates(path string, quick bool, want map[string]bool, emit func(job)) {
 	sort.Strings(keys)
 	kAll, kAlpha := 1, 2
 	if !quick {
-		kAll, kAlpha = 2, 3
+		kAll, kAlpha = 1, 3
 	}
 	langs := []string{}
 	for _, l := range []string{"json", "sen"} {
@@ -570,7 +570,7 @@ func genStates(path string, quick bool, want map[string]bool, emit func(job)) {
 	for _, k := range keys {
 		s := best[k]
 		w, cl := plib.Bytes(s.W), plib.Bytes(s.Cl)
-		if !quick && len(s.Cl) > 2 {
+		if !quick && len(s.Cl) > 1 {
 			kAlpha = 2 // deep states: shorter continuations in the thorough tier
 		} else if !quick {
 			kAlpha = 3
